@@ -19,9 +19,11 @@
 package jwx
 
 import (
+	"crypto/ecdsa"
 	"errors"
 
 	"github.com/lestrrat-go/jwx/v2/jwa"
+	"github.com/lestrrat-go/jwx/v2/jwk"
 )
 
 // ErrUnsupportedSigningKey is returned when an unsupported private key is used to sign. Currently only ecdsa and rsa keys are supported
@@ -54,4 +56,36 @@ func SupportedAlgorithmsAsStrings() []string {
 		result = append(result, string(alg))
 	}
 	return result
+}
+
+// AlgorithmFitsKey reports whether the signature algorithm may be used with the given key (a crypto public/private key or a
+// jwk.Key). The JWX library checks that the algorithm's family fits the key type, but not that an ECDSA algorithm fits
+// the key's curve (RFC 7518 section 3.4: ES256 is P-256 with SHA-256, ES384 is P-384 with SHA-384, ES512 is P-521 with
+// SHA-512): it verifies e.g. an ES256 signature made with a P-384 key. For other key types it returns true.
+func AlgorithmFitsKey(alg jwa.SignatureAlgorithm, key interface{}) bool {
+	var curve string
+	switch k := key.(type) {
+	case *ecdsa.PublicKey:
+		curve = k.Params().Name
+	case ecdsa.PublicKey:
+		curve = k.Params().Name
+	case *ecdsa.PrivateKey:
+		curve = k.Params().Name
+	case jwk.ECDSAPublicKey:
+		curve = k.Crv().String()
+	case jwk.ECDSAPrivateKey:
+		curve = k.Crv().String()
+	default:
+		return true
+	}
+	switch curve {
+	case "P-256":
+		return alg == jwa.ES256
+	case "P-384":
+		return alg == jwa.ES384
+	case "P-521":
+		return alg == jwa.ES512
+	default:
+		return true
+	}
 }
